@@ -594,7 +594,8 @@ fn gen_points(ctx: &mut Ctx, n: usize, dim: usize, exact: bool) -> (Vec<f64>, &'
         }
         _ => {
             // huge / tiny magnitudes
-            let e = [1e-200, 1e-9, 1e9, 1e150][ctx.rng.usize(4)];
+            // squares must stay finite: the inertia matrix sums products of coordinates
+            let e = [1e-200, 1e-9, 1e9, 1e100][ctx.rng.usize(4)];
             for _ in 0..n * dim {
                 c.push(ctx.rng.range(-1000, 1000) as f64 * e);
             }
@@ -793,13 +794,13 @@ pub fn generate(ctx: &mut Ctx) {
         bound + 2
     ));
     // (3) random streams
-    for _ in 0..ctx.budget(350, 11000) {
+    for _ in 0..ctx.budget(2000, 11000) {
         gen_hil(ctx);
     }
-    for _ in 0..ctx.budget(400, 12000) {
+    for _ in 0..ctx.budget(2500, 12000) {
         gen_wq(ctx);
     }
-    for _ in 0..ctx.budget(350, 11000) {
+    for _ in 0..ctx.budget(2000, 11000) {
         gen_zc(ctx);
     }
     // (4) malformed stream
